@@ -308,7 +308,7 @@ var neutralOps = map[string]bool{
 	"blocked-services-update": true, "blocked-services-update-without-schedule": true, "safesearch-settings": true,
 	"querylog-config": true, "querylog-clear": true, "querylog-read": true, "stats-config": true, "stats-reset": true, "stats-read": true,
 	"dns-config": true, "dhcp-add-static-lease": true, "dhcp-remove-static-lease": true, "dhcp-update-static-lease": true, "dhcp-status": true,
-	"bg-filter-refresh": true, "bg-stats-flush-hour-rollover": true, "bg-querylog-flush": true, "bg-querylog-rotate": true,
+	"bg-filter-refresh": true, "bg-stats-flush-hour-rollover": true, "bg-querylog-flush": true, "bg-querylog-flush-after-buffer-filled": true, "bg-querylog-rotate": true,
 	"bg-address-update-rdns-whois": true, "bg-dhcp-runtime-update": true, "bg-dhcp-client-handshake": true,
 }
 
@@ -482,6 +482,11 @@ func mkBody(c *lib.Ctx, sc scenario) func() vsync.Body {
 				}
 				if m := clientIndexConsistent(a.clients); m != "" {
 					return "client-registry-inconsistent: " + m
+				}
+				// Nothing runs any more: a flush still marked as pending will never
+				// happen, and no later query starts another one.
+				if querylog.VerifC07Wrap(a.qlog).FlushPending() {
+					return "querylog-flush-pending-for-ever: all workers have finished but the query log still marks a flush as pending; recorded queries will never be written to the file again"
 				}
 				// A queued asynchronous engine rebuild must still work afterwards.
 				if _, err := a.filter.VerifRunPendingInit(); err != nil {
